@@ -131,6 +131,8 @@ def run(tier, seed, replay=None):
         "a stale onConnect (SetReaderConfig still pending when its connection ended) is outside the model; scripts avoid it except right after an address change during back-off, where the next connection is kept until it has been absorbed",
         "Go: net.Dialer resolves a host name once per dial through net.DefaultResolver (used to observe every attempt incl. refused ones); retry.Quick/Slow replaced by constant 100ms/200ms waits without jitter during the harness run; durations are never compared",
         "EdgeX SDK: UpdateDeviceOperatingState is the only call observed; 'reported' means the call returned nil",
+        "histories started by Driver.Start (recorded operating state from svc.Devices()) use a literal TCP address, so refused attempts are not observed there: only the announcements and isUp are compared, 'unreachable' lasts until the device holds itself Down plus two rounds of the shortened policies",
+        "Stop right after NewLLRPDevice may be noticed before or after the retry loops are entered (events StopAtEntry / Stop); the observed history must equal one of the two model runs",
         "accepted-then-silent is scripted as accept, 15ms, close without data; a reader silent for the full 60 s read timeout is run twice, in the thorough tier only",
     ]
     vlib.proof_part(res, PID)
@@ -165,6 +167,11 @@ def run(tier, seed, replay=None):
                 seen.add(s)
                 uniq.append(s)
         scripts = uniq
+        # histories that START through Driver.Start with the operating state recorded in EdgeX
+        # (0 = DOWN, 1 = UP), the reader then accepting (e) / being unreachable for >= 2 attempts (r)
+        scripts = ["start %d %s" % (u, ph) for u in (0, 1) for ph in ("e", "r", "er", "re", "ere", "rer")] + scripts
+        # Stop right after NewLLRPDevice (about to dial): either of the model's two Stop events
+        scripts = ["1 Y", "0 Y", "1 y Q", "1 Y U1 Q", "0 y U1"] + scripts
 
     crash_budget = [10]
 
@@ -220,7 +227,7 @@ def run(tier, seed, replay=None):
         missing = [i for i in range(len(reqs)) if answers[i] is None]
         rc = 0 if not missing else 1
         lines = [a if a is not None else "!noanswer" for a in answers]
-        orc, oout = vlib.run_oracle("c15", "consts\n" + "".join("run %s\n" % s for s in batch))
+        orc, oout = vlib.run_oracle("c15", "consts\n" + "".join((s if s.startswith("start ") else "run " + s) + "\n" for s in batch))
         return rc, lines, glog_all, [l for l in oout.split("\n")]
 
     rc, lines, glog, olines = execute(scripts)
@@ -234,7 +241,39 @@ def run(tier, seed, replay=None):
         res.violation("constants-differ", "device.go constants %s, model %s" % (lines[0], olines[0]),
                       dict(kind="constants", observed=lines[0], expected=olines[0]), False)
 
-    def differs(g, o):
+    def start_expected(s):
+        """the property for a history started by Driver.Start, from the script alone"""
+        _, u, phases = s.split()
+        st, exp = u == "1", []
+        for ph in phases:
+            if ph == "e" and not st:
+                exp.append("rU+"); st = True
+            elif ph == "r" and st:
+                exp.append("rD+"); st = False
+        return exp, "1" if st else "0"
+
+    alt_model = {}
+
+    def differs(g, o, s=""):
+        if s.startswith("start "):
+            gt, gup = parse(g)
+            mt, mup = parse(o)
+            d = []
+            if [t for t in gt if t.startswith("!")]:
+                d.append("irregular: " + " ".join(t for t in gt if t.startswith("!")))
+            if gt != mt:
+                d.append("reports")
+            if gup != mup:
+                d.append("isUp")
+            return d
+        if s.split()[1:2] in (["Y"], ["y"]):
+            # about to dial: Go notices the cancellation at one of two places; the model has an
+            # event for each (StopAtEntry = the script as written, Stop = alt_model); a lookup of
+            # the cancelled first attempt may or may not have gone out
+            g2 = " ".join(t for t in g.split(" | ")[0].split() if not t.startswith(("!cancelled", "!latelookup"))) + " | " + g.split(" | ")[1]
+            d1 = differs(g2, o)
+            d2 = differs(g2, alt_model[s]) if s in alt_model else d1
+            return d1 if len(d1) <= len(d2) and d2 else ([] if not d2 else d1)
         gt, gup = parse(g)
         mt, mup = model_tokens(o)
         ga, gr, gs, godd = projections(gt)
@@ -252,6 +291,25 @@ def run(tier, seed, replay=None):
             d.append("isUp")
         return d
 
+    def prop(s, g):
+        """the property clauses on an observed history"""
+        if s.startswith("start "):
+            exp, up = start_expected(s)
+            gt, gup = parse(g)
+            got = [t for t in gt if t.startswith("r")]
+            if got != exp or gup != up:
+                return [("recorded-state-not-followed", "device started by Driver.Start with recorded state %s, phases %s: announced %s (isUp=%s), "
+                         "reachability demands %s (isUp=%s)" % (s.split()[1], s.split()[2], got, gup, exp, up))]
+            return []
+        toks = [t for t in parse(g)[0] if not (s.split()[1:2] in (["Y"], ["y"]) and t.startswith(("!cancelled", "!latelookup")))]
+        return clauses(s.split()[0] == "1", toks)
+
+    ys = [s for s in scripts if s.split()[1:2] in (["Y"], ["y"])]
+    if ys:
+        orc, oout = vlib.run_oracle("c15", "".join("run %s\n" % " ".join("T" if t == "Y" else "t" if t == "y" else t for t in s.split()) for s in ys))
+        for s, o in zip(ys, oout.split("\n")):
+            alt_model[s] = o
+
     evals, retried, flaky = 0, 0, 0
     dist = {}
     nontriv = set()
@@ -259,11 +317,16 @@ def run(tier, seed, replay=None):
     suspects = []
     for s, g, o in zip(scripts, lines[1:], olines[1:]):
         evals += 1
-        for t in s.split()[1:]:
-            k = t if t[0] in "DQ" or t in "XTtFGq" else t[0]
-            dist[k] = dist.get(k, 0) + 1
-        if nontrivial(s):
-            nontriv.add(s)
+        if s.startswith("start "):
+            dist["start"] = dist.get("start", 0) + 1
+            if len(s.split()[2]) >= 2:
+                nontriv.add(s)
+        else:
+            for t in s.split()[1:]:
+                k = t if t[0] in "DQ" or t in "XTtFGqYy" else t[0]
+                dist[k] = dist.get(k, 0) + 1
+            if nontrivial(s):
+                nontriv.add(s)
         if o.startswith("!") or o.startswith("error"):
             res.notes.append("generator produced a script the model rejects: %s -> %s" % (s, o))
             continue
@@ -271,7 +334,7 @@ def run(tier, seed, replay=None):
             samples.append(dict(script=s, go=g, model=o))
         if g.startswith("!crash"):
             continue
-        if differs(g, o) or clauses(s.split()[0] == "1", parse(g)[0]):
+        if differs(g, o, s) or prop(s, g):
             suspects.append(s)
 
     # anything that differs or breaks a clause is run again, alone and with little parallelism,
@@ -286,8 +349,8 @@ def run(tier, seed, replay=None):
         rc2, l2, glog2, o2 = execute(suspects, par=4, tag="_r%d" % attempt)
         still = []
         for s, g, o in zip(suspects, l2[1:], o2[1:]):
-            d = differs(g, o)
-            c = clauses(s.split()[0] == "1", parse(g)[0])
+            d = differs(g, o, s)
+            c = prop(s, g)
             if d or c:
                 still.append(s)
                 final[s] = (g, o, d, c)
